@@ -52,6 +52,24 @@ CHECKS.update({
   text="TLC checks exhaustively that the acceptor accepts exactly the well-formed token strings <=5 (thorough 6) over 14 tokens, and that the implementation-shaped render->escape->lex and namespace-tree/link models refine it for all 820 payloads of <=3 special tokens and 1536 type-graph shapes. Every enumerated payload and shape is generated by the real html target, and every page's token stream is judged by the TLA+ trace spec with link resolution over all pages of a run. Bounded-exhaustive for the design, sampled for larger universes.",
   note=TB + "Python 3.12 html.parser is the tokenizer (optional end tags are not inferred); a directory URL means its index.html."),
 })
+
+CHECKS.update({
+ "C09": dict(cat="model_checking", ref="DESIGN.md §6 C09",
+  technique="TLA+ refinement I=>P (TLC, bounded-exhaustive) over live configuration data + behaviour replay into filter_id + trace validation of recorded questions (regex matcher written in the spec, cross-checked against Python re per record)",
+  text="The stropping pipeline and the C/C++ failure handlers are modelled stage by stage in TLA+ over configuration data read from the live Language objects. TLC checks I=>P exhaustively for all strings up to 3 (thorough 4) characters over a 15-symbol alphabet x 6 categories x 24 configurations (defaults and 21 overrides); every model state is replayed into the real filter_id and every recorded question (reserved words x 18 variants, unicode pool, 12k-160k random strings) is judged by the P-layer, with four ways of re-asking for determinism (cache hit, after eviction, fresh object, second process with another hash seed). Unbounded strings and arbitrary Unicode are sampled.",
+  note=TB + "the interpreter's Unicode tables and keyword.kwlist; public configuration getters of Language."),
+ "C11": dict(cat="model_checking", ref="DESIGN.md §6 C11",
+  technique="explicit TLA+ namespace-tree model (TLC exhaustive I=>P over type lists, caller orders and set-iteration orders) + bidirectional conformance (model terminal states replayed through build_namespace_tree and the generators; recorded projections trace-validated by TLC)",
+  text="TLC exhaustively checks that the step-level model of build_namespace_tree / generate_all satisfies the one-to-one / tree property for all bounded type lists (names {a, if, _if}, depth <=3-4, <=3-4 types, two versions), caller orders and set-iteration orders, with prefix, suffix and no stropping. Every model case and 3k-30k larger random cases (4 languages x extension/stem overrides x 8 output-directory spellings x API/CLI x 16 hash seeds) are executed on the real code and their recorded projections are judged by the same TLA+ property.",
+  note=TB + "Language.filter_id(., 'path') taken as the documented stropping (its correctness is C09); include paths parsed from generated text; file-system snapshots of an enclosing sandbox."),
+})
+
+CHECKS.update({
+ "C18": dict(cat="model_checking", ref="DESIGN.md §6 C18",
+  technique="TLA+ P/I model of the generated data-object contract checked exhaustively by TLC; TLC-emitted histories replayed on generated classes; recorded constructor/assign/model/round-trip events validated against the TLA+ trace spec",
+  text="TLC exhaustively checks that the implementation-shaped model of the generated constructors/setters (base.j2: __init__ loop, validate -> store -> clear other options, the three array-assignment paths) refines the data-object contract for 3-field structs/unions over all candidate classes and histories <=3 (4 thorough); every emitted history is replayed on 96 generated classes; recorded constructor/assign/_MODEL_/to_builtin round-trip events of seeded random types are validated by the trace spec. Array-element range is recorded as ambiguous, not asserted.",
+  note=TB + "numpy 2.5.3; the Python concretization of candidate classes; value spaces wider than the boundaries are sampled."),
+})
 NOT_YET = {}
 props = [json.loads(l) for l in open(V / "properties.jsonl")]
 checks, na = [], []
